@@ -1,7 +1,7 @@
 """C12 - splitting and force-breaking words is lossless, bounded and escape-safe."""
 from ..sym import sym_of, subterms
 from ..engine import AnchorMissing, loop_models
-from ..poly import poly, fact_nf, negate_cmp
+from ..poly import poly, fact_nf, negate_cmp, GT0, GE0, EQ0, NE0
 from ..paths import loop_system, PathView, fn_paths, contradictory, loop_state_vars, entry_value
 from ..describe import describe
 from ..engines.schemas import resolve_iter, index_iter_base, range_parts, closure_return_term, item_source
@@ -131,9 +131,9 @@ def _split_words(prog, rep):
             n_tail += 1
             r1.check(st == prev, "tail-start", "the final piece starts at prev", D(st), "the final piece starts at %s" % D(st), site=site)
             nfs = set(fact_nf(f_) for f_ in rp.facts if f_[0][0] == "cmp")
-            c1 = ("gt0", poly(LEN) - poly(prev))
-            c2a = ("ge0", poly(prev) - poly(LEN))
-            c2b = ("eq0", poly(prev))
+            c1 = GT0(poly(LEN) - poly(prev))
+            c2a = GE0(poly(prev) - poly(LEN))
+            c2b = EQ0(poly(prev))
             tail_guards.add("lt" if nfs == {c1} else "zero" if c2b in nfs else "?")
             r1.check(nfs == {c1} or nfs == {c2a, c2b} or nfs == {c2b}, "tail-guard", "the final piece is yielded iff prev < len || prev == 0",
                      str([(k, p.show(D)) for k, p in nfs]),
@@ -294,8 +294,8 @@ def _break_apart(prog, rep):
         ch = lm.item_proj(1)
         acc = s.val_entry(m.state[an], lm.header)
         chw = ("call", CW, (ch,))
-        A = ("gt0", poly(acc))
-        B = ("gt0", poly(acc) + poly(chw) - poly(lim))
+        A = GT0(poly(acc))
+        B = GT0(poly(acc) + poly(chw) - poly(lim))
         for tr in trans:
             if any(pol and a[0] == "variant" and a[2] == "None" for a, pol in tr.facts):
                 continue
@@ -376,7 +376,7 @@ def _break_words(prog, rep):
             continue
         nfs = [fact_nf(f) for f in tr.facts if f[0][0] == "cmp"]
         evs = [(n, a[1]) for (_b, n, a, _r) in tr.events]
-        gt = ("gt0", poly(("field", w, "width")) - poly(LIM))
+        gt = GT0(poly(("field", w, "width")) - poly(LIM))
         site = site_of_block(body, tr.path[-2])
         if gt in nfs:
             cases.add("break")
